@@ -162,16 +162,21 @@ func (r *WordRenderer) renderParagraph(node *ast.Paragraph) (ast.WalkStatus, err
 
 // renderInlineContent 渲染内联内容（文本、强调、链接等）
 func (r *WordRenderer) renderInlineContent(node ast.Node, para *document.Paragraph) {
+	r.renderInlines(node, para, document.TextFormat{})
+}
+
+// renderInlines 递归渲染内联内容，format 为外层强调/链接等累积下来的格式，
+// 这样嵌套的强调（例如斜体中的粗体）会同时带有两种格式
+func (r *WordRenderer) renderInlines(node ast.Node, para *document.Paragraph, format document.TextFormat) {
 	for child := node.FirstChild(); child != nil; child = child.NextSibling() {
+		f := format
 		switch n := child.(type) {
 		case *ast.Text:
 			text := string(n.Segment.Value(r.source))
-			para.AddFormattedText(text, nil)
-			
-			// 处理软换行（单个\n）
-			// goldmark将单个\n解析为多个Text节点，第一个节点的SoftLineBreak为true
-			// 在Markdown中，软换行通常应该被渲染为空格
+			para.AddFormattedText(text, &f)
+
 			// 硬换行（行尾两个空格或反斜杠）渲染为段内换行符
+			// 软换行（单个\n）在Markdown中通常应该被渲染为空格
 			if n.HardLineBreak() {
 				para.Runs = append(para.Runs, document.Run{Break: &document.Break{}})
 			} else if n.SoftLineBreak() {
@@ -179,34 +184,24 @@ func (r *WordRenderer) renderInlineContent(node ast.Node, para *document.Paragra
 			}
 
 		case *ast.Emphasis:
-			text := r.extractTextContent(n)
 			// goldmark中，level=1是斜体，level=2是粗体
 			if n.Level == 2 {
-				// 使用粗体格式
-				format := &document.TextFormat{Bold: true}
-				para.AddFormattedText(text, format)
+				f.Bold = true
 			} else {
-				// 使用斜体格式
-				format := &document.TextFormat{Italic: true}
-				para.AddFormattedText(text, format)
+				f.Italic = true
 			}
+			r.renderInlines(n, para, f)
 
 		case *ast.CodeSpan:
-			text := r.extractTextContent(n)
 			// 使用CodeChar样式的格式
-			format := &document.TextFormat{
-				FontFamily: "Consolas",
-				FontColor:  "D73A49", // GitHub风格的红色
-			}
-			para.AddFormattedText(text, format)
+			f.FontFamily = "Consolas"
+			f.FontColor = "D73A49" // GitHub风格的红色
+			para.AddFormattedText(r.extractTextContent(n), &f)
 
 		case *ast.Link:
-			text := r.extractTextContent(n)
 			// 简单处理链接，后续可以扩展为超链接
-			format := &document.TextFormat{
-				FontColor: "0000FF", // 蓝色
-			}
-			para.AddFormattedText(text, format)
+			f.FontColor = "0000FF" // 蓝色
+			r.renderInlines(n, para, f)
 
 		case *ast.Image:
 			r.renderImageInline(n, para)
@@ -214,11 +209,8 @@ func (r *WordRenderer) renderInlineContent(node ast.Node, para *document.Paragra
 			// 复选框由列表项的前缀符号表示
 		case *extast.Strikethrough:
 			// 处理删除线
-			text := r.extractTextContent(n)
-			format := &document.TextFormat{
-				Strike: true,
-			}
-			para.AddFormattedText(text, format)
+			f.Strike = true
+			r.renderInlines(n, para, f)
 
 		default:
 			// 检查是否为行内数学公式
@@ -229,7 +221,7 @@ func (r *WordRenderer) renderInlineContent(node ast.Node, para *document.Paragra
 			// 对于其他类型，尝试提取文本内容
 			text := r.extractTextContent(n)
 			if text != "" {
-				para.AddFormattedText(text, nil)
+				para.AddFormattedText(text, &f)
 			}
 		}
 	}
